@@ -251,6 +251,17 @@ def consumer_attributes(ctx, shape, w, pre, post, r):
                        'accepted request named' % n)
 
 
+def attributes_only_by_success(ctx, shape, w, pre, post, r):
+    """C12: a consumer's project, user and type change only through a
+    *successful* write"""
+    if r.status >= 400 and shape.kind in ('alloc', 'reshape', 'alloc-delete'):
+        obligation(ctx, 'attributes-change-only-on-success',
+                   _z(rel_diff(pre, post, ('consumers',))),
+                   'status %d but consumer records (project, user, type, '
+                   'generation) differ' % r.status,
+                   sig='%s:%d' % (shape.kind, r.status))
+
+
 def recreatable(ctx, shape, w, pre, post, r):
     """C12, last sentence: a consumer that holds nothing after the request
     (removed, or its first write rejected) can be created again by a write
